@@ -349,6 +349,8 @@ def run(ctx):
     rules.append(r9)
     from .c13 import cell_cleaning_rule
     rules.append(cell_cleaning_rule(ctx, "C06", "C06.R10"))
+    from .c10 import _classifier_rule
+    rules.append(_classifier_rule(ctx, "C06", "C06.R11"))
     return rules
 
 
